@@ -1007,6 +1007,88 @@ fn send_buffer_full(rng: &mut Rng, seed: u64, verbose: bool) -> CaseOut {
     out
 }
 
+/// C15, the transport's send buffer is full when the application disconnects: it accepts the
+/// first k bytes of the DISCONNECT (every k from none to all of it) and then nothing more; the
+/// application gives the call up, lets go of the handle and connects again. What the next
+/// connection carries, and what the calls on it return, must not depend on k.
+fn stalled_disconnect(rng: &mut Rng, seed: u64, verbose: bool) -> CaseOut {
+    use crate::refcodec::Prop;
+    let mut out = CaseOut::default();
+    let cfg = CaseCfg { rx: 128, tx: 512, keepalive: 0, ..CaseCfg::default() };
+    let disc = Step::Disconnect(DiscSpec { reason: *rng.pick(&[None, Some(0u8), Some(4)]), props: rng.pick(&[None, None, Some(vec![Prop::ReasonString("closing down".into())])]).clone(), cancel_at: None });
+    let held = rng.below(3);
+    let release = match rng.below(3) {
+        0 => Step::DropConn,
+        1 => Step::ForgetConn,
+        _ => Step::IntoInner,
+    };
+    let resumed = rng.chance(3, 4);
+    let next = match rng.below(3) {
+        0 => pub1("n", 7, 2),
+        1 => poll0(),
+        _ => Step::Subscribe(SubSpec { filters: vec![FilterSpec { filter: "n/#".into(), max_qos: 1, no_local: false, rap: false, rh: 0 }], props: vec![], cancel_at: None }),
+    };
+    let mut prefix = vec![connect_with(SpMode::Force(false), AckMode::Hold, vec![])];
+    for k in 0..held {
+        prefix.push(pubq(1 + (k % 2) as u8, "held", k as u32, 3));
+    }
+    // length of the DISCONNECT
+    let len = {
+        let mut st = prefix.clone();
+        st.push(disc.clone());
+        let (_l, w) = run_script(&cfg, st, seed);
+        let w = w.borrow();
+        w.conns[0].out.packets.last().map(|p| p.end - p.start).unwrap_or(0)
+    };
+    if len < 2 {
+        return out;
+    }
+    let mut reference: Option<(usize, Vec<u8>, Vec<String>)> = None;
+    for k in (0..=len).rev() {
+        let mut steps = prefix.clone();
+        steps.push(Step::Broker(BrokerAct::WriteGate { after: k, blocks: 1 }));
+        steps.push(disc.clone());
+        steps.push(release.clone());
+        let from = steps.len();
+        steps.push(connect_with(SpMode::Force(resumed), AckMode::Hold, vec![]));
+        steps.push(next.clone());
+        steps.push(poll0());
+        steps.push(poll0());
+        steps.push(pub1("last", 8, 1));
+        steps.push(poll0());
+        let (log, world) = run_script(&cfg, steps, seed);
+        let w = world.borrow();
+        out.evaluations += 1;
+        out.count("twins_compared", 1);
+        let d = log.ops.iter().find(|o| o.kind == "disconnect");
+        if d.is_some_and(|o| o.outcome == Outcome::CallerTimeout) {
+            out.count("disconnects_given_up_on_a_full_send_buffer", 1);
+            out.nontrivial.push(hash_of(&(abstract_trace(&log, &w), k, len)));
+        }
+        let Some(c1) = w.conns.get(1) else { continue };
+        let bytes = c1.out.bytes.clone();
+        let results: Vec<String> = log.ops.iter().filter(|o| o.step >= from).map(|o| format!("{}:{:?}", o.kind, o.outcome)).collect();
+        match &reference {
+            None => reference = Some((k, bytes, results)),
+            Some((rk, rb, rr)) => {
+                if *rb != bytes || *rr != results {
+                    let at = rb.iter().zip(&bytes).position(|(a, b)| a != b).unwrap_or(rb.len().min(bytes.len()));
+                    let ri = rr.iter().zip(&results).position(|(a, b)| a != b);
+                    out.violations.push(viol("C15", "C15/stalled-disconnect/next-connection-depends-on-accepted-bytes", format!("DISCONNECT of {} bytes: with {} bytes accepted before the stall the next connection differs from the run with {} bytes accepted (streams differ at offset {}, {} vs {} bytes; first differing result {:?} vs {:?})", len, k, rk, at, bytes.len(), rb.len(), ri.map(|i| &results[i]), ri.map(|i| &rr[i]))));
+                    if verbose {
+                        for l in render(&log, &w, 300) {
+                            println!("{}", l);
+                        }
+                    }
+                    break;
+                }
+            }
+        }
+    }
+    out.key(format!("stalled-disconnect/held{}/{}", held, if resumed { "resumed" } else { "fresh" }));
+    out
+}
+
 /// C15, the connection ends while only the first k bytes of a packet have arrived, for every k:
 /// what the next connection of the session does must not depend on k (in none of the runs the
 /// packet was received, so the session is in the same state).
@@ -1237,13 +1319,13 @@ impl Check for C15 {
         v
     }
     fn workloads(&self) -> Vec<Workload> {
-        vec![Workload { name: "fragment-twin", quick: 900, thorough: 600_000 }, Workload { name: "exhaustive-chunkings", quick: 60, thorough: 6000 }, Workload { name: "stalls-under-keepalive", quick: 400, thorough: 600_000 }, Workload { name: "connection-cut-inside-a-packet", quick: 150, thorough: 30_000 }, Workload { name: "send-buffer-full-inside-a-packet", quick: 300, thorough: 60_000 }, Workload { name: "connection-ends-inside-an-outbound-packet", quick: 200, thorough: 40_000 }, Workload { name: "outbound-packets-above-64k", quick: 12, thorough: 600 }]
+        vec![Workload { name: "fragment-twin", quick: 900, thorough: 600_000 }, Workload { name: "exhaustive-chunkings", quick: 60, thorough: 6000 }, Workload { name: "stalls-under-keepalive", quick: 400, thorough: 600_000 }, Workload { name: "connection-cut-inside-a-packet", quick: 150, thorough: 30_000 }, Workload { name: "send-buffer-full-inside-a-packet", quick: 300, thorough: 60_000 }, Workload { name: "connection-ends-inside-an-outbound-packet", quick: 200, thorough: 40_000 }, Workload { name: "outbound-packets-above-64k", quick: 12, thorough: 600 }, Workload { name: "stalled-disconnect-then-reconnect", quick: 200, thorough: 40_000 }]
     }
     fn min_nontrivial(&self, tier: Tier) -> usize {
         if tier == Tier::Quick { 300 } else { 3000 }
     }
     fn required_counters(&self) -> Vec<&'static str> {
-        vec!["twins_compared", "chunkings_enumerated_exhaustively", "variants_with_split_packets", "stalls_inside_a_packet", "calls_repeated_after_a_stall", "keepalive_stall_variants", "slow_partial_writes", "connections_cut_inside_a_packet", "requests_given_up_inside_their_packet", "connections_ended_inside_an_outbound_packet", "outbound_packets_above_64k"]
+        vec!["twins_compared", "chunkings_enumerated_exhaustively", "variants_with_split_packets", "stalls_inside_a_packet", "calls_repeated_after_a_stall", "keepalive_stall_variants", "slow_partial_writes", "connections_cut_inside_a_packet", "requests_given_up_inside_their_packet", "connections_ended_inside_an_outbound_packet", "outbound_packets_above_64k", "disconnects_given_up_on_a_full_send_buffer"]
     }
     fn exhaustive(&self) -> bool {
         true
@@ -1265,6 +1347,9 @@ impl Check for C15 {
         }
         if workload == 6 {
             return big_outbound(&mut rng, seed, verbose);
+        }
+        if workload == 7 {
+            return stalled_disconnect(&mut rng, seed, verbose);
         }
         let profile = c15_profile(&mut rng);
         let cfg = {
